@@ -129,6 +129,33 @@ theorem sub_ne_zero_of_ne {a b : V3 α} (h : a ≠ b) : sub b a ≠ zero := by
   obtain ⟨h1, h2, h3⟩ := h0
   exact ⟨by linarith, by linarith, by linarith⟩
 
+/-! ### the same for `V2`, `V4` -/
+
+theorem len_zero2 {L : α} {v : V2 α} (hsq : L ^ 2 = dot2 v v) (h0 : L = 0) : v = zero2 := by
+  rw [h0] at hsq
+  simp only [dot2] at hsq
+  have hx := mul_self_nonneg v.x
+  have hy := mul_self_nonneg v.y
+  have h1 : v.x = 0 := mul_self_eq_zero.mp (by nlinarith)
+  have h2 : v.y = 0 := mul_self_eq_zero.mp (by nlinarith)
+  cases v; simp only [zero2, V2.mk.injEq] at *; exact ⟨h1, h2⟩
+
+theorem len_zero4 {L : α} {v : V4 α} (hsq : L ^ 2 = dot4 v v) (h0 : L = 0) : v = zero4 := by
+  rw [h0] at hsq
+  simp only [dot4] at hsq
+  have hx := mul_self_nonneg v.x
+  have hy := mul_self_nonneg v.y
+  have hz := mul_self_nonneg v.z
+  have hw := mul_self_nonneg v.w
+  have h1 : v.x = 0 := mul_self_eq_zero.mp (by nlinarith)
+  have h2 : v.y = 0 := mul_self_eq_zero.mp (by nlinarith)
+  have h3 : v.z = 0 := mul_self_eq_zero.mp (by nlinarith)
+  have h4 : v.w = 0 := mul_self_eq_zero.mp (by nlinarith)
+  cases v; simp only [zero4, V4.mk.injEq] at *; exact ⟨h1, h2, h3, h4⟩
+
+theorem dot2_self_eq_zero {v : V2 α} (h : dot2 v v = 0) : v = zero2 := len_zero2 (L := 0) (by rw [h]; ring) rfl
+theorem dot4_self_eq_zero {v : V4 α} (h : dot4 v v = 0) : v = zero4 := len_zero4 (L := 0) (by rw [h]; ring) rfl
+
 /-! ## line geometry -/
 
 /-- if the segment between `l1(s0)` and `l2(t0)` is perpendicular to both directions, it is the shortest one -/
